@@ -32,3 +32,14 @@ package model
 //@   property C08
 //@   flags inline
 //@   ensures forall x real, y real :: mtx(r, x, y) == x * sx && mty(r, x, y) == y * sy
+
+// ---- C15: cell text cannot break a pipe table ----
+//@ func escapeMarkdownCell results (res)
+//@   property C15
+//@   ensures cell_safe: forall k int :: {res[k]} 0 <= k && k < len(res) ==> res[k] != 10 && (res[k] == '|' ==> k >= 1 && res[k-1] == 92)
+
+// everything written into the table is a structural literal or escaped cell text
+//@ func (*Table) ToMarkdown
+//@   property C15
+//@   flags callsites
+//@   callsite WriteString(s) requires cell_or_structure: s == "| " || s == " " || s == "|" || s == "\n" || s == "|---" || (forall k int :: {s[k]} 0 <= k && k < len(s) ==> s[k] != 10 && (s[k] == '|' ==> k >= 1 && s[k-1] == 92))
